@@ -150,8 +150,7 @@ Proof.
 Qed.
 Lemma frame3_handle_from_bytes bs : frame3 (handle_from_bytes_m bs).
 Proof.
-  intros s. unfold handle_from_bytes_m.
-  destruct ((handle_of_bytes bs =? 0) && cs_debug s); cbn; [exact I | same3_tac].
+  intros s. unfold handle_from_bytes_m. same3_tac.
 Qed.
 Lemma frame3_index_handle : frame3 index_handle.
 Proof.
